@@ -172,7 +172,7 @@ def cost_volume(method='sad', ws=3, H=3, W=6, dmin=-1, dmax=1, masks=True, grids
                       assumptions=['C02: integer-valued radiometry (sums stay exact in float32)', 'C02: subpix 1; masks take values 0 (valid), 1 (nodata), 2..3 (invalid)'])
 
 
-def subpix_volume(method='sad', ws=3, H=3, W=5, dmin=-1, dmax=1, subpix=2, cap=120, block=()):
+def subpix_volume(method='sad', ws=3, H=3, W=5, dmin=-1, dmax=1, subpix=2, cap=120, block=(), masks=False):
     """C02 at sub-pixel precision: cost at disparity k + i/subpix == measure against the right image linearly interpolated between
     columns (no masks; radiometry integers, so that every interpolated sample and every sum is exact in float32)"""
     import xarray as xr
@@ -192,11 +192,15 @@ def subpix_volume(method='sad', ws=3, H=3, W=5, dmin=-1, dmax=1, subpix=2, cap=1
     def h():
         shapes = {}
         vmax = 31 if method == 'ssd' else 255
-        L, li, _ = mc.make_image(xr, S, EX, 'l', H, W, shapes=shapes, vmax=vmax)
-        R, ri, _ = mc.make_image(xr, S, EX, 'r', H, W, shapes=shapes, vmax=vmax)
+        L, li, lmk = mc.make_image(xr, S, EX, 'l', H, W, shapes=shapes, vmax=vmax, mask='sym' if masks else None)
+        R, ri, rmk = mc.make_image(xr, S, EX, 'r', H, W, shapes=shapes, vmax=vmax, mask='sym' if masks else None)
         mc.add_disparity(xr, S, L, H, W, dmin, dmax)
         col.shapes = shapes
-        ex = {'subpix_volume': True, 'method': method, 'ws': ws, 'H': H, 'W': W, 'dmin': dmin, 'dmax': dmax, 'subpix': subpix}
+        ex = {'subpix_volume': True, 'method': method, 'ws': ws, 'H': H, 'W': W, 'dmin': dmin, 'dmax': dmax, 'subpix': subpix, 'masks': masks}
+        nodL = (lambda r, c: lmk._a[r, c].t == 1) if masks else (lambda r, c: z3.BoolVal(False))
+        nodR = (lambda r, c: rmk._a[r, c].t == 1) if masks else (lambda r, c: z3.BoolVal(False))
+        invL = (lambda r, c: z3.And(lmk._a[r, c].t != 0, lmk._a[r, c].t != 1)) if masks else (lambda r, c: z3.BoolVal(False))
+        invR = (lambda r, c: z3.And(rmk._a[r, c].t != 0, rmk._a[r, c].t != 1)) if masks else (lambda r, c: z3.BoolVal(False))
         try:
             out = mc.run_chain(S, L, R, method, ws, subpix=subpix, upto='masked')
         except S.Unsupported:
@@ -213,7 +217,7 @@ def subpix_volume(method='sad', ws=3, H=3, W=5, dmin=-1, dmax=1, subpix=2, cap=1
             if f == 0:
                 return ri._a[r, fl].t.val
             return (1 - z3.RealVal(str(f))) * ri._a[r, fl].t.val + z3.RealVal(str(f)) * ri._a[r, fl + 1].t.val
-        ncomp = 0
+        ncomp = 0; masked_any = []
         if tuple(o.shape) == (H, W, len(ds)):
             for r in range(H):
                 for c in range(W):
@@ -234,16 +238,31 @@ def subpix_volume(method='sad', ws=3, H=3, W=5, dmin=-1, dmax=1, subpix=2, cap=1
                         else:
                             a = [lv(r + dr, c + dc) > lv(r, c) for dr, dc in win]; b = [rv(r + dr, c2 + dc) > rv(r, c2) for dr, dc in win]
                             v = z3.Sum([z3.If(x_ != y_, z3.RealVal(1), z3.RealVal(0)) for x_, y_ in zip(a, b)])
-                        props.append(("subpixel-cost-is-the-measure-on-the-linearly-interpolated-right-image[%d,%d,%s]" % (r, c, d), z3.And(e.tag == 0, e.val == v)))
-        col.check_path(props, label='p%d' % len(EX.trace), extra=ex, witnesses=[("a-computable-cost-exists", z3.BoolVal(ncomp > 0))], group=(method != 'ssd'))
+                        if not masks:
+                            props.append(("subpixel-cost-is-the-measure-on-the-linearly-interpolated-right-image[%d,%d,%s]" % (r, c, d), z3.And(e.tag == 0, e.val == v)))
+                            continue
+                        # computable <=> left centre valid, no nodata in the left window, and for EACH right column the interpolated sample is
+                        # built from (one column for an integer position, the two neighbours otherwise): centre valid and no nodata in its window
+                        fl = c2.numerator // c2.denominator
+                        rcols = [fl] if c2.denominator == 1 else [fl, fl + 1]
+                        cm = z3.And(z3.Not(invL(r, c)), *[z3.Not(nodL(r + dr, c + dc)) for dr, dc in win],
+                                    *[z3.Not(invR(r, x)) for x in rcols], *[z3.Not(nodR(r + dr, x + dc)) for x in rcols for dr, dc in win])
+                        masked_any.append(z3.Not(cm))
+                        props.append(("subpixel-cost-is-the-measure-nan-iff-a-contributing-pixel-is-masked[%d,%d,%s]" % (r, c, d),
+                                      z3.If(cm, z3.And(e.tag == 0, e.val == v), e.tag == 1)))
+        wit = [("a-computable-cost-exists", z3.BoolVal(ncomp > 0))]
+        if masks and masked_any:
+            wit.append(("a-subpixel-cost-is-masked", z3.Or(*masked_any)))
+        col.check_path(props, label='p%d' % len(EX.trace), extra=ex, witnesses=wit, group=(method != 'ssd'))
         info['fn'] = instr.fn_hash(IT.shift_right_img, MC.AbstractMatchingCost.allocate_cost_volume, MC.AbstractMatchingCost.cv_masked, MC.AbstractMatchingCost.point_interval,
-                                   SS_.SadSsd.compute_cost_volume, SS_.SadSsd.pixel_wise_aggregation, CE.Census.compute_cost_volume, IT.census_transform)
+                                   SS_.SadSsd.compute_cost_volume, SS_.SadSsd.pixel_wise_aggregation, CE.Census.compute_cost_volume, IT.census_transform,
+                                   *([MC.AbstractMatchingCost.masks_dilatation] if masks else []))
     res, stats = explore(h, max_paths=64)
     return col.result(stats, functions=info.get('fn', {}),
-                      bounds={'measure': method, 'window': ws, 'image': [H, W], 'interval': [dmin, dmax], 'subpix': subpix, 'masks': 'none',
+                      bounds={'measure': method, 'window': ws, 'image': [H, W], 'interval': [dmin, dmax], 'subpix': subpix, 'masks': 'symbolic 4-valued' if masks else 'none',
                               'radiometry': 'integers (exact domain)'},
                       stubs=['scipy.ndimage.zoom(order=1) = the linear map read off the real zoom applied to unit vectors (weights multiples of 1/64)'],
-                      assumptions=['C02 sub-pixel: no masks, subpix 2 or 4 (interpolation weights exact in float32)'])
+                      assumptions=['C02 sub-pixel: subpix 2 or 4 (interpolation weights exact in float32); masks %s' % ('take values 0 (valid), 1 (nodata), 2..3 (invalid); a fractional right position is computable iff both neighbouring columns are' if masks else 'none')])
 
 
 def _sqrt_atoms(t):
@@ -541,11 +560,17 @@ def replay_zncc(cex):
     hh = ws // 2
     li = np.array(inp['l'], np.float32).reshape(H, W); ri = np.array(inp['r'], np.float32).reshape(H, W)
 
-    def mk(im):
+    masks = bool(x.get('masks'))
+    lm = np.array(inp['lmsk'], np.int16).reshape(H, W) if masks else np.zeros((H, W), np.int16)
+    rm = np.array(inp['rmsk'], np.int16).reshape(H, W) if masks else np.zeros((H, W), np.int16)
+
+    def mk(im, m_):
         d = xr.Dataset({"im": (["row", "col"], im.copy())}, coords={"row": np.arange(H), "col": np.arange(W)})
         d.attrs = {"valid_pixels": 0, "no_data_mask": 1, "crs": None, "transform": None, "no_data_img": -9999}
+        if masks:
+            d["msk"] = xr.DataArray(m_.copy(), dims=["row", "col"])
         return d
-    L = mk(li); R = mk(ri)
+    L = mk(li, lm); R = mk(ri, rm)
     L.coords["band_disp"] = ["min", "max"]
     L["disparity"] = xr.DataArray(np.array([np.full((H, W), dmin), np.full((H, W), dmax)]), dims=["band_disp", "row", "col"]); L.attrs["disparity_source"] = [dmin, dmax]
     try:
@@ -589,11 +614,17 @@ def replay_subpix(cex):
     hh = ws // 2
     li = np.array(inp['l'], np.float32).reshape(H, W); ri = np.array(inp['r'], np.float32).reshape(H, W)
 
-    def mk(im):
+    masks = bool(x.get('masks'))
+    lm = np.array(inp['lmsk'], np.int16).reshape(H, W) if masks else np.zeros((H, W), np.int16)
+    rm = np.array(inp['rmsk'], np.int16).reshape(H, W) if masks else np.zeros((H, W), np.int16)
+
+    def mk(im, m_):
         d = xr.Dataset({"im": (["row", "col"], im.copy())}, coords={"row": np.arange(H), "col": np.arange(W)})
         d.attrs = {"valid_pixels": 0, "no_data_mask": 1, "crs": None, "transform": None, "no_data_img": -9999}
+        if masks:
+            d["msk"] = xr.DataArray(m_.copy(), dims=["row", "col"])
         return d
-    L = mk(li); R = mk(ri)
+    L = mk(li, lm); R = mk(ri, rm)
     L.coords["band_disp"] = ["min", "max"]
     L["disparity"] = xr.DataArray(np.array([np.full((H, W), dmin), np.full((H, W), dmax)]), dims=["band_disp", "row", "col"]); L.attrs["disparity_source"] = [dmin, dmax]
     try:
@@ -627,10 +658,16 @@ def replay_subpix(cex):
                         exp = sum((L64[r + dr, c + dc] - rv(r + dr, c2 + dc)) ** 2 for dr, dc in win)
                     else:
                         exp = sum((L64[r + dr, c + dc] > L64[r, c]) != (rv(r + dr, c2 + dc) > rv(r, c2)) for dr, dc in win)
+                    fl = c2.numerator // c2.denominator
+                    rcols = [fl] if c2.denominator == 1 else [fl, fl + 1]
+                    bad = lm[r, c] > 1 or any(lm[r + dr, c + dc] == 1 for dr, dc in win) or any(rm[r, xx] > 1 for xx in rcols) or \
+                        any(rm[r + dr, xx + dc] == 1 for xx in rcols for dr, dc in win)
+                    if bad:
+                        exp = np.nan
                 g_ = float(got[r, c, k])
                 if (exp != exp) != (g_ != g_) or (exp == exp and g_ != float(np.float32(exp))):
                     return {'violates': True, 'detail': 'cost[%d,%d] at disparity %s is %r, the measure on the interpolated right image gives %r (left %s, right %s)' %
-                            (r, c, float(d), g_, float(exp), li.tolist(), ri.tolist())}
+                            (r, c, float(d), g_, float(exp), li.tolist(), ri.tolist()) + (' masks left %s right %s' % (lm.tolist(), rm.tolist()) if masks else '')}
     return {'violates': False, 'detail': 'sub-pixel cost volume equals the reference'}
 
 
